@@ -100,7 +100,9 @@ func main() {
 		e.prepFunc(fi)
 		for ord := range fc.LoopInv {
 			if ord < 1 || ord > len(fi.loops) {
-				stale = append(stale, fmt.Sprintf("stale-contract: %s names loop %d but the function has %d loops", shortKey(k), ord, len(fi.loops)))
+				// the loop a helper invariant was written for is gone: the function's post-conditions still decide
+				// the property (they fail if the loop mattered), so this is reported but does not stop the check
+				e.note("note: %s has an invariant for loop %d but the function now has %d loops (invariant ignored)", shortKey(k), ord, len(fi.loops))
 			}
 		}
 		rep := e.VerifyFunc(fi, fc)
@@ -204,9 +206,11 @@ func main() {
 					}
 				}
 			} else {
-				canarySeen[o.Fn] = true
+				// one canary per return path; a return *statement* is alive if some path through it is feasible
+				rk := o.Fn + "/" + strings.SplitN(strings.TrimPrefix(o.Name, o.Fn+"/canary:"), "@", 2)[0]
+				canarySeen[rk] = true
 				if o.Status == "covered" {
-					canaryOK[o.Fn] = true
+					canaryOK[rk] = true
 				}
 			}
 			continue
@@ -257,10 +261,21 @@ func main() {
 		}
 	}
 	nObl -= nKnown
-	for fn := range canarySeen {
+	deadAck := map[string]bool{}
+	for _, k := range keys {
+		for _, n := range strings.FieldsFunc(e.cs.Funcs[k].Options["deadreturns"], func(r rune) bool { return r == ',' || r == ' ' }) {
+			deadAck[shortKey(k)+"/ret#"+n] = true
+		}
+	}
+	var rks []string
+	for rk := range canarySeen {
+		rks = append(rks, rk)
+	}
+	sort.Strings(rks)
+	for _, rk := range rks {
 		nCan++
-		if !canaryOK[fn] {
-			lines = append(lines, fmt.Sprintf("VACUOUS %s: no feasible return path (canary `ensures false` was proved)", fn))
+		if !canaryOK[rk] && !deadAck[rk] {
+			lines = append(lines, fmt.Sprintf("VACUOUS %s: no feasible path reaches this return statement (`ensures false` was proved on every path through it); acknowledge with `option deadreturns` if the code really is dead", rk))
 			if exit == 0 {
 				exit = 2
 			}
